@@ -29,7 +29,9 @@ CONSTANTS N,          \* worker goroutines 1..N
           ObjIds,     \* ids application objects expose through Cid()
           ArgKinds,   \* kinds of context argument Next logs with, subset of {"nil","bg","obj","ctx"}
           Pid,        \* the process id
-          AtomicNew, AtomicLine, ObjCid
+          AtomicNew, AtomicLine, ObjCid,
+          Sink(_, _)  \* how the writer's history is kept: KeepAll (the specification), or KeepLast for
+                      \* long recorded traces, where only the newest write is looked at
 
 VARIABLES next, used, ctxid, origin, rd, pend, nlog, out
 vars == <<next, used, ctxid, origin, rd, pend, nlog, out>>
@@ -65,6 +67,9 @@ SpecPrefix(a) == CASE a.k = "nil" -> [judged |-> TRUE,  pid |-> Pid, cid |-> 0]
 (* What a logging call writes.  Deviation C18/obj-cid-dropped (ObjCid = FALSE): *)
 (* an application object is treated as if no context had been passed.          *)
 Prefix(a) == IF a.k = "obj" /\ ~ObjCid THEN SpecPrefix(NilArg) ELSE SpecPrefix(a)
+
+KeepAll(o, w)  == Append(o, w)
+KeepLast(o, w) == <<w>>
 
 Init == /\ next = FirstId - 1
         /\ used = {}
@@ -130,13 +135,13 @@ LogCall(g, level, a, routed) ==
   /\ ArgOk(a)
   /\ nlog' = [nlog EXCEPT ![g] = @ + 1]
   /\ IF ~routed THEN UNCHANGED <<out, pend>>
-     ELSE IF AtomicLine THEN out' = Append(out, Line(g, level, a)) /\ UNCHANGED pend
-     ELSE /\ out' = Append(out, HeadOf(Line(g, level, a)))          \* deviation C18/split-line
+     ELSE IF AtomicLine THEN out' = Sink(out, Line(g, level, a)) /\ UNCHANGED pend
+     ELSE /\ out' = Sink(out, HeadOf(Line(g, level, a)))          \* deviation C18/split-line
           /\ pend' = [pend EXCEPT ![g] = <<TailOf(Line(g, level, a))>>]
   /\ UNCHANGED idvars
 
 WriteTail(g) == /\ pend[g] # <<>>
-                /\ out' = Append(out, pend[g][1])
+                /\ out' = Sink(out, pend[g][1])
                 /\ pend' = [pend EXCEPT ![g] = <<>>]
                 /\ UNCHANGED <<idvars, nlog>>
 
